@@ -54,7 +54,19 @@ def gen_req(draw, idx, probe=False):
         items = [creators[draw(st.integers(0, len(creators) - 1))]]
     else:
         items = [pool[draw(st.integers(0, len(pool) - 1))][1]]
-    req = {"who": who, "v": list(v), "items": items}
+    groups = draw(st.sampled_from([None, None, None, ["admins"], ["staff"], ["staff", "admins"], []]))
+    if draw(st.integers(0, 3)) == 0:
+        # the object stored under the group-based 'team' policy: the decision depends on the
+        # requester's groups, which belong to the identity of THIS request only
+        tu = idx["team"]
+        items = [draw(st.sampled_from([{"op": "Get", "uid": tu}, {"op": "GetAttributes", "uid": tu},
+                                       {"op": "Locate", "attrs": [["Name", "n-team"]]},
+                                       {"op": "GetAttributeList", "uid": tu},
+                                       {"op": "ModifyAttribute", "uid": tu, "attr": ["Name", "n-team-2", 0]}
+                                       if tuple(v) < (2, 0) else {"op": "Get", "uid": tu}]))]
+        groups = draw(st.sampled_from([["admins"], ["staff"], None, ["admins", "staff"]]))
+        who = draw(st.sampled_from(["carol", "carol", "bob", "alice"]))
+    req = {"who": who, "groups": groups, "v": list(v), "items": items}
     if len(items) > 1 and draw(st.booleans()):
         req["cont"] = "CONTINUE"
     return req
@@ -70,9 +82,10 @@ def gen_case(draw):
 def _send(server, req, now):
     req = dict(req)
     who = req.pop("who")
+    groups = req.pop("groups", None)
     H.CLOCK.now = now
     data = H.encode_request(req)
-    return server.process(data, (who, None)), data
+    return server.process(data, (who, groups)), data
 
 
 def run_case(spec):
@@ -96,7 +109,8 @@ def run_case(spec):
                 if hist.created_uids(items):
                     created = True
         probe = spec["probe"]
-        nontrivial = created or any(p["v"] != probe["v"] or p["who"] != probe["who"] for p in spec["prefix"])
+        nontrivial = created or any(p["v"] != probe["v"] or p["who"] != probe["who"]
+                                    or p.get("groups") != probe.get("groups") for p in spec["prefix"])
         fresh = srv.fresh_engine_on_copy()
         t += 1
         try:
